@@ -18,44 +18,46 @@ expression branch or a comprehension body (may not execute).
 import ast
 
 
-def _walk_expr(e, out, cond=False, lazy=False):
+def _walk_expr(e, out, cond=False, lazy=False, guards=()):
+    """guards: ((test expression, polarity), ...) - the short-circuit / conditional expression tests under which e is evaluated"""
     if e is None:
         return
     if isinstance(e, ast.Call):
-        _walk_expr(e.func, out, cond, lazy)
+        _walk_expr(e.func, out, cond, lazy, guards)
         for a in e.args:
-            _walk_expr(a.value if isinstance(a, ast.Starred) else a, out, cond, lazy)
+            _walk_expr(a.value if isinstance(a, ast.Starred) else a, out, cond, lazy, guards)
         for k in e.keywords:
-            _walk_expr(k.value, out, cond, lazy)
-        out.append({"kind": "call", "ast": e, "conditional": cond, "lazy": lazy})
+            _walk_expr(k.value, out, cond, lazy, guards)
+        out.append({"kind": "call", "ast": e, "conditional": cond, "lazy": lazy, "guards": guards})
     elif isinstance(e, ast.Attribute):
-        _walk_expr(e.value, out, cond, lazy)
+        _walk_expr(e.value, out, cond, lazy, guards)
         if isinstance(e.ctx, ast.Load):
-            out.append({"kind": "load_prop", "ast": e, "conditional": cond, "lazy": lazy})
+            out.append({"kind": "load_prop", "ast": e, "conditional": cond, "lazy": lazy, "guards": guards})
     elif isinstance(e, ast.Subscript):
-        _walk_expr(e.value, out, cond, lazy)
-        _walk_expr(e.slice, out, cond, lazy)
+        _walk_expr(e.value, out, cond, lazy, guards)
+        _walk_expr(e.slice, out, cond, lazy, guards)
         if isinstance(e.ctx, ast.Load):
-            out.append({"kind": "load_sub", "ast": e, "conditional": cond, "lazy": lazy})
+            out.append({"kind": "load_sub", "ast": e, "conditional": cond, "lazy": lazy, "guards": guards})
     elif isinstance(e, ast.Slice):
         for x in (e.lower, e.upper, e.step):
-            _walk_expr(x, out, cond, lazy)
+            _walk_expr(x, out, cond, lazy, guards)
     elif isinstance(e, ast.BoolOp):
+        pol = isinstance(e.op, ast.And)
         for i, v in enumerate(e.values):
-            _walk_expr(v, out, cond or i > 0, lazy)
+            _walk_expr(v, out, cond or i > 0, lazy, guards + tuple((w, pol) for w in e.values[:i]))
     elif isinstance(e, ast.IfExp):
-        _walk_expr(e.test, out, cond, lazy)
-        _walk_expr(e.body, out, True, lazy)
-        _walk_expr(e.orelse, out, True, lazy)
+        _walk_expr(e.test, out, cond, lazy, guards)
+        _walk_expr(e.body, out, True, lazy, guards + ((e.test, True),))
+        _walk_expr(e.orelse, out, True, lazy, guards + ((e.test, False),))
     elif isinstance(e, ast.Compare):
-        _walk_expr(e.left, out, cond, lazy)
+        _walk_expr(e.left, out, cond, lazy, guards)
         left = e.left
         for op, c in zip(e.ops, e.comparators):
-            _walk_expr(c, out, cond, lazy)
+            _walk_expr(c, out, cond, lazy, guards)
             if isinstance(op, (ast.In, ast.NotIn)):
-                out.append({"kind": "contains", "ast": e, "item": left, "container": c, "conditional": cond, "lazy": lazy})
+                out.append({"kind": "contains", "ast": e, "item": left, "container": c, "conditional": cond, "lazy": lazy, "guards": guards})
             elif isinstance(op, (ast.Eq, ast.NotEq)):
-                out.append({"kind": "eq", "ast": e, "left": left, "right": c, "conditional": cond, "lazy": lazy})
+                out.append({"kind": "eq", "ast": e, "left": left, "right": c, "conditional": cond, "lazy": lazy, "guards": guards})
             left = c
     elif isinstance(e, (ast.ListComp, ast.SetComp, ast.GeneratorExp, ast.DictComp)):
         lz = lazy or isinstance(e, ast.GeneratorExp)
@@ -72,17 +74,17 @@ def _walk_expr(e, out, cond=False, lazy=False):
     elif isinstance(e, ast.Lambda):
         return   # body runs when called, by whoever calls it
     elif isinstance(e, (ast.Yield, ast.YieldFrom, ast.Await)):
-        _walk_expr(e.value, out, cond, lazy)
-        out.append({"kind": "yield", "ast": e, "conditional": cond, "lazy": lazy})
+        _walk_expr(e.value, out, cond, lazy, guards)
+        out.append({"kind": "yield", "ast": e, "conditional": cond, "lazy": lazy, "guards": guards})
     elif isinstance(e, ast.NamedExpr):
-        _walk_expr(e.value, out, cond, lazy)
-        out.append({"kind": "store_name", "ast": e.target, "value": e.value, "conditional": cond, "lazy": lazy})
+        _walk_expr(e.value, out, cond, lazy, guards)
+        out.append({"kind": "store_name", "ast": e.target, "value": e.value, "conditional": cond, "lazy": lazy, "guards": guards})
     else:
         for c in ast.iter_child_nodes(e):
             if isinstance(c, ast.expr):
-                _walk_expr(c, out, cond, lazy)
+                _walk_expr(c, out, cond, lazy, guards)
             elif isinstance(c, ast.keyword):
-                _walk_expr(c.value, out, cond, lazy)
+                _walk_expr(c.value, out, cond, lazy, guards)
 
 
 def _store(t, value, out, kind_prefix="store"):
